@@ -34,11 +34,11 @@ assert sh("git -C /repo worktree add -q %s HEAD" % wt).returncode == 0
 env = "SKGLM_SRC=%s PYTHONPATH=/tmp/mut/shim" % wt
 ran = []
 try:
-    r0 = sh("%s /venv/bin/python %s/demo.py" % (env, src), cwd=wt, timeout=1800)
+    r0 = sh("%s /venv/bin/python %s/demo.py" % (env, src), cwd=wt, timeout=7200)
     ran.append("demo on clean tree: exit %d" % r0.returncode)
     ap = sh("git -C %s apply %s/patch.diff" % (wt, src))
     assert ap.returncode == 0, ap.stderr
-    r1 = sh("%s /venv/bin/python %s/demo.py" % (env, src), cwd=wt, timeout=1800)
+    r1 = sh("%s /venv/bin/python %s/demo.py" % (env, src), cwd=wt, timeout=7200)
     ran.append("demo on patched tree: exit %d" % r1.returncode)
     rt = sh("/tmp/mut/run_tests.py %s" % wt, timeout=3600)
     ran.append("repository tests on patched tree: %s" % rt.stdout.strip().splitlines()[0] if rt.stdout.strip() else "no output")
